@@ -74,7 +74,7 @@ def run(ctx):
     for name, lst in sorted(groups.items()):
         vals = {v for _, v in lst}
         ck.ob("R16a", name, vals == {want[name]}, f"all {len(lst)} declarations of {name} equal {want[name]:#x}", detail=lst)
-    ck.floor("duplicated wire constant declarations", sum(len(v) for v in groups.values()), 12)
+    ck.floor("duplicated wire constant declarations", sum(len(v) for v in groups.values()), 9)
 
     # ---- R16b
     cg = cr.callgraph()
@@ -84,12 +84,7 @@ def run(ctx):
         reach = cr.reachable([p])
         ck.ob("R16b", p + "|prefix decoder", PREFIX in reach, "length prefixes are decoded by decode_size_with_offset", site=f.where(0))
         # marker tests: compare the byte with CONS_BOX_MARKER / BACK_REFERENCE / 0x80 / MAX_SINGLE_BYTE only
-        consts = set()
-        for b in f.reachable_blocks():
-            if f.term(b)["k"] == "switch":
-                n = compare_norm(f.switch_cond(b, deep=False))
-                if n and len(n[0]) == 1 and ("b[0]" in list(n[0])[0] or "first_byte" in list(n[0])[0] or "initial_b" in list(n[0])[0]):
-                    consts.add((n[2], abs(n[1])))
+        consts = f.byte_tests()
         ok = all(v in (0xFF, 0xFE, 0x80, 0x7F, 0x7F + 1, 1) for _, v in consts) and (bool(consts) or p.endswith("_trusted") or "parse_triples" in p)
         ck.ob("R16b", p + "|markers", ok, "the first byte is compared only with the cons marker, the back-reference marker, 0x80 and the single-byte bound",
               site=f.where(0), detail=sorted(consts))
@@ -165,8 +160,9 @@ def run(ctx):
             n = compare_norm(ce.switch_cond(b))
             if n:
                 be = ce.bool_edges(b)
-                tests.append((show_norm(n), ce.is_error_block(be[0])))
-    ck.ob("R16d", ce.path, any(t.endswith(" +expected_size >0") and t.startswith("-") and "io::copy" in t or t == "-count +expected_size >0" for t, e in tests if e), "copy_exactly fails when fewer bytes than requested were available",
+                tests.append((ce.unname(show_norm(n)), ce.is_error_block(be[0])))
+    # (reader $1, writer $2, expected_size $3): the count returned by io::copy (directly or through a local) is compared with $3
+    ck.ob("R16d", ce.path, any(t.endswith(" +$3 >0") and t.startswith("-") and "io::copy" in t or t == "-%u64 +$3 >0" for t, e in tests if e), "copy_exactly fails when fewer bytes than requested were available",
           site=ce.where(0), detail=tests)
     sk = cr.fn("serde::utils::skip_bytes")
     ck.analysed(sk)
@@ -214,7 +210,7 @@ def run(ctx):
             ok = (side == "rhs" and e[1] in ("Le", "Gt")) or (side == "lhs" and e[1] in ("Ge", "Lt"))
             ck.ob("R16f", f"{p}|{show(e)[:60]}", ok, "a byte is a single-byte atom iff byte <= MAX_SINGLE_BYTE (0x7f itself included)",
                   site=f.where(b), detail=show(e)[:120])
-    ck.floor("tests against MAX_SINGLE_BYTE", n_sb, 7)
+    ck.floor("tests against MAX_SINGLE_BYTE", n_sb, 5)
 
     # ---- R16g: no out-of-bounds panic on any byte string (the in-bounds verifier of C25 over the decoders)
     from rules import c25
